@@ -66,3 +66,27 @@ def mk_x690_raw(kind, v):
             "Opaque": Opaque, "Counter64": Counter64, "Null": lambda _: Null(),
             "ObjectIdentifier": lambda a: ObjectIdentifier(".".join(map(str, a))),
             "IpAddress": lambda b: IpAddress(IPv4Address(bytes(b)))}[kind](v)
+
+
+def form_of_py(kind: str, v):
+    """what a caller of the pythonic API holds for a value of SNMP type `kind` -> [tag number, canonical content];
+    a Python value that is not the documented conversion of that type gives a form nothing equals"""
+    from datetime import timedelta
+    from ipaddress import IPv4Address
+    bad = [0, [ord(c) for c in (type(v).__name__ + ":" + repr(v))[:24]]]
+    if kind in ("Integer", "Counter", "Gauge", "Counter64"):
+        return val_form(kind, v) if isinstance(v, int) and not isinstance(v, bool) else bad
+    if kind == "TimeTicks":
+        if not isinstance(v, timedelta) or v.microseconds % 10000:
+            return bad
+        return val_form(kind, v.days * 8640000 + v.seconds * 100 + v.microseconds // 10000)
+    if kind in ("OctetString", "Opaque"):
+        return val_form(kind, v) if isinstance(v, bytes) else bad
+    if kind == "IpAddress":
+        return val_form(kind, v.packed) if isinstance(v, IPv4Address) else bad
+    if kind == "ObjectIdentifier":
+        try:
+            return val_form(kind, tuple(int(x) for x in v.strip(".").split("."))) if isinstance(v, str) else bad
+        except ValueError:
+            return bad
+    return [TAGS[kind], []] if v is None else bad
